@@ -660,7 +660,7 @@ def gen_batches(chk):
         ("comp/start(first)", [0, 0, 0, 10000, fxb], "a", 1, "comp", [("S1", G_user([7, 1]), yes)], 6 if thorough else 5),
         ("comp/start(last),max=2", [0, 0, 0, 2, fxb], "a", 1, "comp", [("S2", G_user([7, 2]), yes)], 6 if thorough else 4),
         ("comp/while-typing", [1, 0, 0, 10000, fxb], "a", 1, "comp", [("S3", G_user([7, 3]), yes)], 6 if thorough else 4),
-        ("validate+suggest", [0, 1, 1, 10000, fxb], "a", 1, "val", [], 8 if thorough else 6),
+        ("validate+suggest", [0, 1, 1, 10000, fxb], "a", 1, "val", [], 7 if thorough else 6),
         ("everything", [1, 1, 1, 10000, fxb], "a", 1, "all", [("S1", G_user([7, 1]), yes)], 5 if thorough else 4),
     ]
     fixed = load_corpus(PROP) + cycle_cases() + ([WITNESS] if not FIXED_F1 else []) + MALFORMED
